@@ -85,7 +85,9 @@ def py_of(case):
 def gen_case(rng, i):
     ver = 'gfa1' if i % 2 else 'gfa2'
     if ver == 'gfa1':
-        lines, info = gen.gen_gfa1(rng, nseg=rng.randint(2, 7), headers=False, comments=False, tags=False, with_paths=False)
+        lines, info = gen.gen_gfa1(rng, nseg=rng.randint(2, 7), headers=False, comments=False, tags=False, with_paths=i % 4 == 1)
+        if i == 1 and not any(l.startswith('P\t') and ',' not in l.split('\t')[2] for l in lines):
+            lines.append('P\tp1s\t%s+\t*' % [l.split('\t')[1] for l in lines if l.startswith('S\t')][0])
         lines = [l for l in lines if 'ID:Z:' not in l]
     else:
         kinds = rng.choice([None, ['pfx', 'sfx'], ['whole', 'pfx', 'sfx'], ['inner', 'pfx']])
@@ -109,7 +111,9 @@ def judge(case):
     if r[0] != 'ok':
         return [('topology queries raised %s' % (r[1],), None, None)], None
     comps, nd, nc, ni, dead = r[1]
-    real = [str(x) for x in G.lines if x.record_type != 'H']
+    # the records of the document: what was added and not removed.  Placeholders for segments are nodes of the graph; a
+    # link that no line of the document states is not a record (the generated documents give every path its links)
+    real = [str(x) for x in G.lines if x.record_type != 'H' and not (x.virtual and x.record_type != 'S')]
     text = [t.replace('\tco:Z:GFAPY_virtual_line', '') for t in real]
     want = uf_components(text)
     if comps != want[0]:
